@@ -11,7 +11,7 @@ from . import keyed as _keyed
 from .ops import exc, is_number
 from .values import FrozenSetE, DictViewE  # noqa: E402
 from .values import (
-    Ref, ListE, DequeE, SetE, NumSetE, DictE, ObjE, NdE, SymListE, FuncVal, BoundMethod, ClassVal, BuiltinClass,
+    Ref, ListE, IterE, DequeE, SetE, NumSetE, DictE, ObjE, NdE, SymListE, FuncVal, BoundMethod, ClassVal, BuiltinClass,
     ModuleVal, Builtin, ExcVal, Exc, Opaque, SliceVal, SuperVal, Unknown, Unsupported, EngineError,
     is_z3, z3val, coerce_pair, as_arith, is_intlike, is_reallike, is_boollike, to_frac,
 )
@@ -77,7 +77,16 @@ def getattr(I, st, v, name):
             if name == "__class__":
                 yield st, e.cls
                 return
+            fl = _class_flags(I, e.cls)
+            if fl["getattribute"]:
+                # every attribute read of such an object goes through the user's __getattribute__
+                raise Unsupported("class %s defines __getattribute__" % e.cls.name)
+            if fl["initsub"]:
+                ensure_init_subclass(I, st, e.cls)
             if name == "__dict__":
+                if fl["slots"] is not None:
+                    yield st, exc("AttributeError", "'%s' object has no attribute '__dict__'" % e.cls.name)
+                    return
                 if "__dictdata__" in e.attrs:
                     # the mapping payload of a dict subclass lives beside the instance attributes in the model, not in Python
                     raise Unsupported("__dict__ of an instance of a dict subclass")
@@ -93,8 +102,14 @@ def getattr(I, st, v, name):
                 for c in I.mro(e.cls):
                     if isinstance(c, ClassVal) and ("classattr", id(c.node), name) in st.ghost:
                         gv = st.ghost[("classattr", id(c.node), name)]
-                        if isinstance(gv, (FuncVal, PropertyVal)):
-                            raise Unsupported("method/property %s rebound on a class at run time" % name)
+                        if isinstance(gv, PropertyVal):
+                            raise Unsupported("property %s rebound on a class at run time" % name)
+                        if isinstance(gv, FuncVal):
+                            # a function stored on the class is a non-data descriptor: read through an instance it is a bound method
+                            if "property" in gv.decorators() or "cached_property" in gv.decorators():
+                                raise Unsupported("property %s rebound on a class at run time" % name)
+                            yield st, bind_member(I, st, gv, v, e.cls)
+                            return
                         dg = _descriptor_method(I, st, gv, "__get__")
                         if dg is not None:
                             # descriptor protocol: type(obj).attr.__get__(obj, type(obj))
@@ -109,6 +124,20 @@ def getattr(I, st, v, name):
                 return
             if isinstance(m, FuncVal) and "property" in m.decorators():
                 yield from I.call(m, [v], {}, st)
+                return
+            sd = _static_descriptor(I, st, m)
+            if sd is not None:
+                # descriptor protocol for an object stored in the class body: a DATA descriptor (__set__ / __delete__) is
+                # consulted before the instance dictionary, a non-data descriptor (__get__ only) after it
+                dobj, dget, dset, ddel = sd
+                data = dset is not None or ddel is not None
+                if not data and name in e.attrs:
+                    yield st, e.attrs[name]
+                    return
+                if dget is not None:
+                    yield from I.call(dget, [dobj, v, e.cls], {}, st)
+                    return
+                yield st, (e.attrs[name] if name in e.attrs else dobj)
                 return
             if isinstance(m, FuncVal) and any(d in ("cached_property",) for d in m.decorators()):
                 # functools.cached_property is a NON-data descriptor: the first read computes the value and stores it in
@@ -199,9 +228,22 @@ def getattr(I, st, v, name):
                     gv = BoundMethod(gv, v)
                 yield st, gv
                 return
-        if ("classattr", id(v.node), name) in st.ghost:
-            yield st, st.ghost[("classattr", id(v.node), name)]
-            return
+        if _class_flags(I, v)["initsub"]:
+            ensure_init_subclass(I, st, v)
+        for c in (I.mro(v) if st.ghost else ()):
+            # a class attribute rebound at run time on the class or on a base (nearest class first; a class that defines the
+            # name in its body hides rebindings further up)
+            if isinstance(c, ClassVal) and ("classattr", id(c.node), name) in st.ghost:
+                gv = st.ghost[("classattr", id(c.node), name)]
+                if isinstance(gv, FuncVal) and "classmethod" in gv.decorators():
+                    gv = BoundMethod(gv, v)
+                yield st, gv
+                return
+            if isinstance(c, ClassVal) and name in I.class_members(c):
+                break
+        if name in ("__mro__", "__bases__", "__subclasses__", "__dict__", "__qualname__", "__module__", "__doc__", "__slots__") and (
+                I.class_lookup(v, name)[0] is None):
+            raise Unsupported("class attribute %s" % name)
         if M.is_enum_class(I, v):
             yield st, enum_member(I, st, v, name)
             return
@@ -239,9 +281,11 @@ def getattr(I, st, v, name):
         if isinstance(m, FuncVal) and "classmethod" in m.decorators():
             yield st, BoundMethod(m, v)
             return
-        # a class-level list / dict / set / object is ONE object per path, like a module-level one (thaw_global): what
-        # `Cls.registry.append(x)` or `self.shared.append(x)` puts into it is seen by every later reader
-        yield st, I.thaw_global(m, st)
+        sd = _static_descriptor(I, st, m)
+        if sd is not None and sd[1] is not None:
+            yield from I.call(sd[1], [sd[0], None, v], {}, st)  # Class.attr: descriptor.__get__(None, Class)
+            return
+        yield st, I.thaw_global(m, st)  # the one object per path that instances see as well
         return
     if isinstance(v, BuiltinClass):
         if name == "__name__":
@@ -314,6 +358,14 @@ def getattr(I, st, v, name):
 
             yield st, bi("type.__new__", _mc.type_new)
             return
+        if v.name == "object" and name == "__delattr__":
+            def _oda(I, st, a, k):
+                if len(a) != 2 or k or not isinstance(a[1], str):
+                    raise Unsupported("object.__delattr__ arguments")
+                yield from delattr(I, st, a[0], a[1], raw=True)  # the default deletion, bypassing a __delattr__ override
+
+            yield st, bi("object.__delattr__", _oda)
+            return
         if v.name == "object" and name == "__setattr__":
             # object.__setattr__(obj, name, value): the default attribute store (bypasses a __setattr__ override);
             # a property / descriptor of that name on the class would intercept it -> outside the model
@@ -359,6 +411,16 @@ def getattr(I, st, v, name):
                 def _sa(I, st, a, k):
                     yield from setattr(I, st, selfv, a[0], a[1], raw=True)
                 yield st, bi("object.__setattr__", _sa)
+                return
+            if name == "__new__" and isinstance(selfv, ClassVal):
+                def _onew(I, st, a, k):
+                    # object.__new__(C): a blank instance of C (extra arguments are an error unless __init__ is overridden)
+                    if len(a) != 1 or k or not isinstance(a[0], ClassVal):
+                        raise Unsupported("super().__new__ with extra arguments")
+                    if any(isinstance(c, BuiltinClass) and c.name != "object" for c in I.mro(a[0])):
+                        raise Unsupported("object.__new__ of a class with a builtin base")
+                    yield st, st.alloc(ObjE(a[0], {}))
+                yield st, bi("object.__new__", _onew)
                 return
             raise Unsupported("super().%s not found" % name)
         if isinstance(m, FuncVal):
@@ -451,9 +513,21 @@ def getattr(I, st, v, name):
     if isinstance(v, Opaque):
         yield st, Opaque(v.desc + "." + name)
         return
+    if isinstance(v, FuncVal) and not _b.getattr(v, "raw", False) and _b.getattr(v.node, "decorator_list", None) and any(
+            not I.transparent_decorator(d) for d in v.node.decorator_list):
+        # the name is bound to decorator(function): that object's attributes are the ones read
+        yield from getattr(I, st, I.decorated(v, st), name)
+        return
     if isinstance(v, FuncVal):
+        fa = _b.getattr(v, "fattrs", None) or {}
+        if name in fa:
+            yield st, fa[name]
+            return
         if name == "__name__":
             yield st, v.name
+            return
+        if name == "__wrapped__":
+            yield st, exc("AttributeError", "'function' object has no attribute '__wrapped__'")
             return
     if isinstance(v, BoundMethod) and name == "__name__":
         yield st, v.func.name
@@ -541,6 +615,141 @@ def _int_from_bytes(I, st, a, k):
     if not isinstance(b, (bytes, bytearray)):
         raise Unsupported("int.from_bytes of %r" % (b,))
     yield st, int.from_bytes(bytes(b), vals["byteorder"], signed=signed)
+
+
+def _class_flags(I, cls):
+    """static facts about a class (cached): does a class of its MRO define __getattribute__ / __init_subclass__ / only __slots__"""
+    k = ("flags", id(_b.getattr(cls, "node", None)) if isinstance(cls, ClassVal) else cls.name)
+    c = I._class_cache.get(k)
+    if c is None:
+        mro = [x for x in I.mro(cls) if isinstance(x, ClassVal)]
+        slots = None
+        if mro and all("__slots__" in I.class_members(x) for x in mro) and all(
+                isinstance(x, ClassVal) or x.name == "object" for x in I.mro(cls)):
+            slots = set()
+            for x in mro:
+                v, _ = I.class_lookup(x, "__slots__")
+                if isinstance(v, str):
+                    v = (v,)
+                if not isinstance(v, tuple) and type(v).__name__ == "FrozenList":
+                    v = tuple(v.items)
+                if not isinstance(v, tuple) or not all(isinstance(n, str) for n in v):
+                    slots = "?"
+                    break
+                slots.update(v)
+        c = I._class_cache[k] = {
+            "getattribute": any("__getattribute__" in I.class_members(x) for x in mro),
+            "initsub": any("__init_subclass__" in I.class_members(x) for x in mro),
+            "slots": slots,
+        }
+    return c
+
+
+def _mangled(cls_name, n):
+    return "_" + cls_name.lstrip("_") + n if n.startswith("__") and not n.endswith("__") else n
+
+
+def slot_check(I, st, cls, name):
+    """CPython: an instance of a class whose whole MRO declares __slots__ has no __dict__: only the declared names can be
+    bound, anything else raises AttributeError.  -> None (allowed) or the exception"""
+    fl = _class_flags(I, cls)
+    if fl["slots"] is None or name in ("__class__",) or name.startswith("__") and name.endswith("__"):
+        return None
+    if fl["slots"] == "?":
+        raise Unsupported("__slots__ of %s is not a tuple of literal names" % cls.name)
+    allowed = set(fl["slots"])
+    for x in I.mro(cls):
+        if isinstance(x, ClassVal):
+            v, _ = I.class_lookup(x, "__slots__")
+            for n in ((v,) if isinstance(v, str) else (v if isinstance(v, tuple) else _b.getattr(v, "items", ()))):
+                allowed.add(_mangled(x.name, n))
+    if name in allowed or "__dict__" in allowed:
+        return None
+    return exc("AttributeError", "'%s' object has no attribute '%s'" % (cls.name, name))
+
+
+def ensure_init_subclass(I, st, cls):
+    """`__init_subclass__` hooks: CPython calls `super(C, C).__init_subclass__(**class keywords)` when the statement
+    `class C(Base)` is executed.  Classes are static objects of the model, so the hooks of C and of its bases (bases first)
+    run the first time C is used on a path; the class attributes they assign are per-path class attributes."""
+    if not isinstance(cls, ClassVal) or not _class_flags(I, cls)["initsub"]:
+        return
+    if ("initsub", id(cls.node)) in st.ghost:
+        return
+    for c in reversed(I.mro(cls)):
+        if not isinstance(c, ClassVal) or ("initsub", id(c.node)) in st.ghost:
+            continue
+        st.ghost[("initsub", id(c.node))] = True
+        hook, where = I.class_lookup(c, "__init_subclass__", start_after=c)
+        if hook is None:
+            continue
+        kw = {}
+        from .symex import Frame
+
+        for k in c.node.keywords:
+            if k.arg == "metaclass":
+                continue
+            if k.arg is None:
+                raise Unsupported("class statement with ** keywords")
+            st.frames.append(Frame({}, None, c.module))
+            try:
+                outs = list(I.ev(k.value, st))
+            finally:
+                st.frames.pop()
+            if len(outs) != 1 or outs[0][0] is not st or isinstance(outs[0][1], Exc):
+                raise Unsupported("class keyword of %s" % c.name)
+            kw[k.arg] = outs[0][1]
+        before = st.fork()
+        outs = list(I.call(hook, [c], kw, st))
+        if len(outs) != 1 or outs[0][0] is not st or isinstance(outs[0][1], Exc):
+            raise Unsupported("__init_subclass__ for %s forks or raises" % c.name)
+        # running the hook late is only the same as running it at class creation if all it does is set attributes of the
+        # new class: a hook that changes anything else (a registry of subclasses, a module global) is refused
+        if not I._same_store(before, st):
+            raise Unsupported("__init_subclass__ for %s changes objects other than the new class" % c.name)
+        for gk, gv in st.ghost.items():
+            if before.ghost.get(gk, _b) is gv:
+                continue
+            if isinstance(gk, tuple) and gk and (gk[0] in ("env", "initsub", "default", "decorated") or (gk[0] == "classattr" and gk[1] == id(c.node))):
+                continue
+            raise Unsupported("__init_subclass__ for %s changes state other than attributes of the new class (%s)" % (c.name, gk[0] if isinstance(gk, tuple) else gk))
+
+
+def _static_descriptor(I, st, m):
+    """a class attribute defined in the class body whose value is an object with __get__/__set__/__delete__ -> (the one
+    object per path, get, set, delete) else None"""
+    from .symex import FrozenObj
+
+    if not isinstance(m, FrozenObj):
+        return None
+    g, s_, d = (I.class_lookup(m.cls, n)[0] for n in ("__get__", "__set__", "__delete__"))
+    if g is None and s_ is None and d is None:
+        return None
+    return I.thaw_global(m, st), g, s_, d
+
+
+def _functools_wraps(I, st, a, k):
+    """functools.wraps(wrapped)(wrapper) -> the wrapper with __wrapped__ = wrapped and wrapped's __name__/__doc__/attributes.
+    Function values are shared between paths, so the result is a copy of the wrapper carrying the new attributes."""
+    if len(a) != 1 or k:
+        raise Unsupported("functools.wraps with these arguments")
+    wrapped = a[0]
+
+    def deco(I, st, a2, k2):
+        if len(a2) != 1 or k2 or not isinstance(a2[0], FuncVal):
+            raise Unsupported("functools.wraps applied to a non-function")
+        import copy as _copy
+
+        w = _copy.copy(a2[0])
+        fa = dict(_b.getattr(a2[0], "fattrs", None) or {})
+        if isinstance(wrapped, FuncVal):
+            fa.update(_b.getattr(wrapped, "fattrs", None) or {})
+            fa["__name__"] = wrapped.name
+        fa["__wrapped__"] = wrapped
+        w.fattrs = fa
+        yield st, w
+
+    yield st, bi("functools.wraps(...)", deco)
 
 
 def _descriptor_method(I, st, val, which):
@@ -647,7 +856,9 @@ def setattr(I, st, obj, name, v, raw=False):
                 for st1, r in I.call(sa, [obj, name, v], {}, st):
                     yield st1, (r if isinstance(r, Exc) else None)
                 return
-            m, _ = I.class_lookup(obj.cls, name + ".setter")
+            m, mwhere = I.class_lookup(obj.cls, name + ".setter")
+            if m is not None and I.class_lookup(obj.cls, name)[1] != mwhere:
+                m = None  # a subclass redefines the property: the setter of the base class's property does not apply
             if m is not None:
                 for st1, r in I.call(m, [obj, v], {}, st):
                     yield st1, (r if isinstance(r, Exc) else None)
@@ -663,7 +874,9 @@ def setattr(I, st, obj, name, v, raw=False):
                 for st1, r in I.call(sa, [obj, name, v], {}, st):
                     yield st1, (r if isinstance(r, Exc) else None)
                 return
-            m, _ = I.class_lookup(e.cls, name + ".setter")
+            m, mwhere = I.class_lookup(e.cls, name + ".setter")
+            if m is not None and I.class_lookup(e.cls, name)[1] != mwhere:
+                m = None  # a subclass redefines the property: the setter of the base class's property does not apply
             if m is not None:
                 for st1, r in I.call(m, [obj, v], {}, st):
                     yield st1, (r if isinstance(r, Exc) else None)
@@ -677,6 +890,14 @@ def setattr(I, st, obj, name, v, raw=False):
             g, _ = I.class_lookup(e.cls, name)
             from .values import PropertyVal
 
+            sd = _static_descriptor(I, st, g)
+            if sd is not None and (sd[2] is not None or sd[3] is not None):
+                if sd[2] is None:
+                    yield st, exc("AttributeError", "__set__")  # data descriptor without __set__
+                    return
+                for st1, r in I.call(sd[2], [sd[0], obj, v], {}, st):
+                    yield st1, (r if isinstance(r, Exc) else None)
+                return
             if isinstance(g, PropertyVal):
                 if g.fset is None:
                     yield st, exc("AttributeError", "can't set attribute '%s'" % name)
@@ -698,6 +919,10 @@ def setattr(I, st, obj, name, v, raw=False):
             d.owner = obj
             yield st, None
             return
+        bad = slot_check(I, st, e.cls, name)
+        if bad is not None:
+            yield st, bad
+            return
         e.attrs[name] = v
         yield st, None
         return
@@ -710,6 +935,7 @@ def setattr(I, st, obj, name, v, raw=False):
             from . import metaclass as _mc
 
             _mc.ensure(I, st, obj)
+        ensure_init_subclass(I, st, obj)
         st.ghost[("classattr", id(obj.node), name)] = v
         yield st, None
         return
@@ -721,9 +947,44 @@ def setattr(I, st, obj, name, v, raw=False):
     raise Unsupported("attribute assignment on %r" % (obj,))
 
 
-def delattr(I, st, obj, name):
+def delattr(I, st, obj, name, raw=False):
     if isinstance(obj, Ref) and st.get(obj).kind == "obj":
         e = st.get(obj)
+        if not raw:
+            # CPython: type(obj).__delattr__ if defined; else a data descriptor of the class (property deleter, __delete__)
+            # takes the deletion; else the instance dictionary entry is removed
+            da, _ = I.class_lookup(e.cls, "__delattr__")
+            if da is not None:
+                for st1, r in I.call(da, [obj, name], {}, st):
+                    yield st1, (r if isinstance(r, Exc) else None)
+                return
+            from .values import PropertyVal
+
+            g = _ghost_class_attr(I, st, e.cls, name)
+            if g is None:
+                g, _ = I.class_lookup(e.cls, name)
+            if isinstance(g, PropertyVal):
+                raise Unsupported("del of a run-time property")
+            if isinstance(g, FuncVal) and "property" in g.decorators():
+                fdel, dwhere = I.class_lookup(e.cls, name + ".deleter")
+                if fdel is not None and I.class_lookup(e.cls, name)[1] != dwhere:
+                    fdel = None
+                if fdel is None:
+                    yield st, exc("AttributeError", "property '%s' of '%s' object has no deleter" % (name, e.cls.name))
+                    return
+                for st1, r in I.call(fdel, [obj], {}, st):
+                    yield st1, (r if isinstance(r, Exc) else None)
+                return
+            sd = _static_descriptor(I, st, g)
+            if sd is None and isinstance(g, Ref) and st.get(g).kind == "obj":
+                sd = (g,) + tuple(I.class_lookup(st.get(g).cls, n)[0] for n in ("__get__", "__set__", "__delete__"))
+            if sd is not None and (sd[2] is not None or sd[3] is not None):
+                if sd[3] is None:
+                    yield st, exc("AttributeError", "__delete__")
+                    return
+                for st1, r in I.call(sd[3], [sd[0], obj], {}, st):
+                    yield st1, (r if isinstance(r, Exc) else None)
+                return
         if name in e.attrs:
             del e.attrs[name]
             yield st, None
@@ -1311,19 +1572,19 @@ def set_method(I, st, ref, name):
         if (is_z3(a[0]) and _plain_number(a[0])) or st.get(ref).kind == "numset":
             yield from numset_add(I, st, ref, a[0])
             return
-        x = I.hashable(a[0])
+        x = I.set_elem(st, a[0], S(st))
         if x not in S(st):
             S(st).append(x)
         yield st, None
 
     def discard(I, st, a, k):
-        x = I.hashable(a[0])
+        x = I.set_elem(st, a[0], S(st))
         if x in S(st):
             S(st).remove(x)
         yield st, None
 
     def remove(I, st, a, k):
-        x = I.hashable(a[0])
+        x = I.set_elem(st, a[0], S(st))
         if x in S(st):
             S(st).remove(x)
             yield st, None
@@ -1333,7 +1594,7 @@ def set_method(I, st, ref, name):
     def update(I, st, a, k):
         for src in a:
             for x in I.iterate(src, st):
-                x = I.hashable(x)
+                x = I.set_elem(st, x, S(st))
                 if x not in S(st):
                     S(st).append(x)
         yield st, None
@@ -1342,6 +1603,7 @@ def set_method(I, st, ref, name):
         out = list(S(st))
         for src in a:
             for x in I.iterate(src, st):
+                I.set_elem(st, x, out)
                 if x not in out:
                     out.append(x)
         yield st, same_type(st, out)
@@ -1350,6 +1612,8 @@ def set_method(I, st, ref, name):
         out = list(S(st))
         for src in a:
             other = I.iterate(src, st)
+            for x in other:
+                I.set_elem(st, x, out)
             out = [x for x in out if x in other]
         yield st, same_type(st, out)
 
@@ -1357,18 +1621,22 @@ def set_method(I, st, ref, name):
         out = list(S(st))
         for src in a:
             other = I.iterate(src, st)
+            for x in other:
+                I.set_elem(st, x, out)
             out = [x for x in out if x not in other]
         yield st, same_type(st, out)
 
     def difference_update(I, st, a, k):
         # s.difference_update(*others): remove every element found in any of the others (in place, returns None)
         for src in a:
-            other = [I.hashable(x) for x in I.iterate(src, st)]
+            other = [I.set_elem(st, x, S(st)) for x in I.iterate(src, st)]
             S(st)[:] = [x for x in S(st) if x not in other]
         yield st, None
 
     def issubset(I, st, a, k):
         other = I.iterate(a[0], st)
+        for x in S(st):
+            I.set_elem(st, x, other)
         yield st, all(x in other for x in S(st))
 
     def copy(I, st, a, k):
@@ -1381,7 +1649,7 @@ def set_method(I, st, ref, name):
         mine = list(S(st))
         other = []
         for x in I.iterate(a[0], st):
-            x = I.hashable(x)
+            x = I.set_elem(st, x, S(st))
             if x not in other:
                 other.append(x)
         if any(is_z3(x) for x in mine + other) or st.get(ref).kind == "numset":
@@ -1688,7 +1956,7 @@ def call_builtin_class(I, st, c, args, kwargs):
     elif n == "set" or n == "frozenset":
         items = []
         for x in I.iterate(args[0], st) if args else []:
-            I.hashable(x)
+            I.set_elem(st, x, items)
             if x not in items:
                 items.append(x)
         # frozenset(...) is immutable and is not a `set` (values.FrozenSetE)
@@ -1908,6 +2176,9 @@ def make_builtins(I):
         v = a[0]
         from . import bytesmodel
 
+        if isinstance(v, Ref) and isinstance(st.get(v), IterE):
+            yield st, exc("TypeError", "object of type 'iterator' has no len()")
+            return
         if isinstance(v, (tuple, str, bytes)):
             yield st, len(v)
         elif isinstance(v, bytesmodel.BytesVal):
@@ -2115,18 +2386,27 @@ def make_builtins(I):
         except Unsupported:
             yield st, M.EnumIter(inner, start)
             return
-        yield st, st.alloc(ListE([(ops_add(start, i), x) for i, x in enumerate(items)]))
+        yield st, st.alloc(IterE([(ops_add(start, i), x) for i, x in enumerate(items)]))
 
     add("enumerate", _enumerate)
 
     def _zip(I, st, a, k):
+        its = [isinstance(x, Ref) and isinstance(st.get(x), IterE) for x in a]
         cols = [I.iterate(x, st) for x in a]
-        yield st, st.alloc(ListE([tuple(t) for t in zip(*cols)]))
+        if any(its):
+            # zip takes one item from each argument in turn and stops at the first one that is exhausted: the arguments before
+            # it have then given n+1 items, the others n.  The model consumes an ITERATOR argument completely: refused unless
+            # that is what CPython takes from it.
+            n = min(len(c) for c in cols)
+            j = next(i for i, c in enumerate(cols) if len(c) == n)
+            if any(it and len(c) != (n + 1 if i < j else n) for i, (it, c) in enumerate(zip(its, cols))):
+                raise Unsupported("zip over iterator objects of unequal length (the longer ones keep their remaining items)")
+        yield st, st.alloc(IterE([tuple(t) for t in zip(*cols)]))
 
     add("zip", _zip)
 
     def _reversed(I, st, a, k):
-        yield st, st.alloc(ListE(list(reversed(I.iterate(a[0], st)))))
+        yield st, st.alloc(IterE(list(reversed(I.iterate(a[0], st)))))
 
     add("reversed", _reversed)
 
@@ -2171,7 +2451,7 @@ def make_builtins(I):
                 yield cur, v
                 return
             out.append(v)
-        yield cur, cur.alloc(ListE(out))
+        yield cur, cur.alloc(IterE(out))
 
     add("map", _map)
 
@@ -2180,7 +2460,7 @@ def make_builtins(I):
 
         def rec(s, i, acc):
             if i == len(items):
-                yield s, s.alloc(ListE(acc))
+                yield s, s.alloc(IterE(acc))
                 return
             if f is None:
                 outs = [(s, items[i])]
@@ -2287,7 +2567,13 @@ def make_builtins(I):
     add("delattr", _delattr)
 
     def _callable(I, st, a, k):
-        yield st, isinstance(a[0], (FuncVal, BoundMethod, Builtin, ClassVal, BuiltinClass))
+        v = a[0]
+        if isinstance(v, Ref) and st.get(v).kind == "obj":
+            yield st, I.class_lookup(st.get(v).cls, "__call__")[0] is not None  # an instance is callable iff its class has __call__
+            return
+        from .values import Partial as _P
+
+        yield st, isinstance(v, (FuncVal, BoundMethod, Builtin, ClassVal, BuiltinClass, _P))
 
     add("callable", _callable)
 
@@ -2303,11 +2589,23 @@ def make_builtins(I):
     def _hash(I, st, a, k):
         v = a[0]
         if isinstance(v, Ref) and st.get(v).kind == "obj":
-            m, _ = I.class_lookup(st.get(v).cls, "__hash__")
+            m, wh = I.class_lookup(st.get(v).cls, "__hash__")
+            eqm, we = I.class_lookup(st.get(v).cls, "__eq__")
+            if eqm is not None and (m is None or (we != wh and I.is_subclass(we, wh))):
+                # a class that defines __eq__ without __hash__ gets __hash__ = None: its instances are unhashable
+                yield st, exc("TypeError", "unhashable type: '%s'" % st.get(v).cls.name)
+                return
             if m is not None:
                 yield from I.call(m, [v], {}, st)
                 return
-            yield st, 1000000 + v.id
+            if wh is not None:
+                yield st, exc("TypeError", "unhashable type: '%s'" % st.get(v).cls.name)  # __hash__ = None
+                return
+            # object.__hash__: derived from the address - some integer, the same for the same object
+            k = ("objhash", v.id)
+            if k not in st.ghost:
+                st.ghost[k] = I.fresh("int", "hash")
+            yield st, st.ghost[k]
             return
         if isinstance(v, tuple) and v and all((isinstance(x, int) and not isinstance(x, bool)) or (is_z3(x) and z3.is_int(x)) for x in v):
             # hash of a tuple of ints: a function of the elements (uninterpreted); on concrete elements its value is
@@ -2327,7 +2625,11 @@ def make_builtins(I):
         from .loops import lazy_begin, lazy_end
 
         old = lazy_begin(st)  # iter() is lazy: remember which list it walks (see loops.lazy_check)
-        acc = st.alloc(ListE(I.iterate(a[0], st)))
+        if isinstance(a[0], Ref) and isinstance(st.get(a[0]), IterE):
+            lazy_end(st, old, None)
+            yield st, a[0]  # iter(iterator) is the iterator itself
+            return
+        acc = st.alloc(IterE(I.iterate(a[0], st)))
         lazy_end(st, old, acc)
         yield st, acc
 
@@ -2335,9 +2637,16 @@ def make_builtins(I):
 
     def _next(I, st, a, k):
         v = a[0]
-        if isinstance(v, Ref) and st.get(v).kind == "list" and getattr_py(st.get(v), "__class__").__name__ != "IterE":
-            raise Unsupported("next() on something that is not an iterator object (TypeError in Python for a list)")
+        if isinstance(v, Ref) and st.get(v).kind in ("list", "deque") and not isinstance(st.get(v), IterE):
+            # a list / deque / dictionary view is iterable but not an iterator
+            yield st, exc("TypeError", "'%s' object is not an iterator" % type(st.get(v)).__name__)
+            return
         if isinstance(v, Ref) and st.get(v).kind == "list":
+            from .loops import lazy_check
+
+            lazy_check(st, st.ghost.get(("lazy_src", v.id)))
+            if st.get(v).taken or st.get(v).pending is not None:
+                raise Unsupported("next() on an iterator that another (eagerly evaluated) lazy iterator was built on / whose items raise")
             items = st.get(v).items
             if items:
                 yield st, items.pop(0)
@@ -2792,7 +3101,7 @@ def make_ext_modules(I):
 
         cols = [I.iterate(x, st) for x in a]
         rep = k.get("repeat", 1)
-        yield st, st.alloc(ListE([tuple(t) for t in _it.product(*cols, repeat=rep)]))
+        yield st, st.alloc(IterE([tuple(t) for t in _it.product(*cols, repeat=rep)]))
 
     it["product"] = bi("itertools.product", i_product)
 
@@ -2800,7 +3109,7 @@ def make_ext_modules(I):
         out = []
         for x in a:
             out.extend(I.iterate(x, st))
-        yield st, st.alloc(ListE(out))
+        yield st, st.alloc(IterE(out))
 
     it["chain"] = bi("itertools.chain", i_chain)
 
@@ -2820,7 +3129,12 @@ def make_ext_modules(I):
         if len(a) == 4 and a[3] == 0:
             yield st, exc("ValueError", "Step for islice() must be a positive integer or None.")
             return
-        yield st, st.alloc(ListE(list(_it.islice(I.iterate(a[0], st), *a[1:]))))
+        src_is_iterator = isinstance(a[0], Ref) and isinstance(st.get(a[0]), IterE)
+        items = I.iterate(a[0], st)
+        stop = a[1] if len(a) == 2 else a[2]
+        if src_is_iterator and stop is not None and stop < len(items):
+            raise Unsupported("itertools.islice that leaves items in the iterator object it reads (the model consumes it completely)")
+        yield st, st.alloc(IterE(list(_it.islice(items, *a[1:]))))
 
     it["islice"] = bi("itertools.islice", i_islice)
 
@@ -2828,7 +3142,7 @@ def make_ext_modules(I):
         import itertools as _it
 
         cols = [I.iterate(x, st) for x in a]
-        yield st, st.alloc(ListE([tuple(t) for t in _it.zip_longest(*cols, fillvalue=k.get("fillvalue"))]))
+        yield st, st.alloc(IterE([tuple(t) for t in _it.zip_longest(*cols, fillvalue=k.get("fillvalue"))]))
 
     it["zip_longest"] = bi("itertools.zip_longest", i_zip_longest)
     E["itertools"] = it
@@ -3025,27 +3339,39 @@ def make_ext_modules(I):
     # ---- pickle of PLAIN DATA only: numbers, bool, None, str, bytes, earlier pickles, tuples/lists/dicts/sets/arrays of these.
     # dumps() freezes a structurally equal, disjoint copy; loads() hands out a fresh copy of it.  Anything else
     # (instances, functions, classes) is outside the model -> Unsupported.
-    def _plain_copy(st, v, what):
+    def _plain_copy(st, v, what, memo=None):
+        """structurally equal, disjoint copy of plain data.  Like pickle's memo, an object reached twice is copied ONCE:
+        `a, b = loads(dumps((l, l)))` gives `a is b`, and a list that contains itself comes back as one cyclic list."""
         from . import bytesmodel
 
+        if memo is None:
+            memo = {}
         if v is None or isinstance(v, (bool, int, Fraction, str, bytes, PickleBlob, bytesmodel.BytesVal)) or is_z3(v):
             if is_z3(v) and not (z3.is_int(v) or z3.is_real(v) or z3.is_bool(v)):
                 raise Unsupported("%s of a term of sort %s" % (what, v.sort()))
             return v
         if isinstance(v, tuple) and type(v) is tuple:
-            return tuple(_plain_copy(st, x, what) for x in v)
+            return tuple(_plain_copy(st, x, what, memo) for x in v)
         if isinstance(v, Ref):
+            if v.id in memo:
+                return memo[v.id]
             e = st.get(v)
-            if e.kind == "list":
-                return st.alloc(ListE([_plain_copy(st, x, what) for x in e.items]))
-            if e.kind == "dict" and getattr_py(e, "default_factory") is None:
-                return st.alloc(DictE({_plain_copy(st, kk, what): _plain_copy(st, x, what) for kk, x in e.items.items()}))
+            if e.kind == "list" and type(e) is ListE:
+                new = memo[v.id] = st.alloc(ListE([]))
+                st.get(new).items = [_plain_copy(st, x, what, memo) for x in e.items]
+                return new
+            if e.kind == "dict" and getattr_py(e, "default_factory") is None and e.owner is None:
+                new = memo[v.id] = st.alloc(DictE({}))
+                st.get(new).items = {_plain_copy(st, kk, what, memo): _plain_copy(st, x, what, memo) for kk, x in e.items.items()}
+                return new
             if e.kind == "set":
-                return st.alloc(SetE([_plain_copy(st, x, what) for x in e.items]))
+                new = memo[v.id] = st.alloc((FrozenSetE if e.frozen else SetE)([_plain_copy(st, x, what, memo) for x in e.items]))
+                return new
             if e.kind == "nd":
                 c = e.detached()  # keeps the dtype mark and the (un)known memory layout
-                c.data = [_plain_copy(st, x, what) for x in e.data]
-                return st.alloc(c)
+                c.data = [_plain_copy(st, x, what, memo) for x in e.data]
+                new = memo[v.id] = st.alloc(c)
+                return new
         if isinstance(v, ClassVal) and what == "pickle":
             # classes are pickled by reference (module-level name): the same class object comes back
             return v
@@ -3264,7 +3590,9 @@ def make_ext_modules(I):
     from .values import Partial
 
     E["functools"] = {"partial": bi("functools.partial", lambda I, st, a, k: iter([(st, Partial(a[0], a[1:], k))])),
-                      "lru_cache": bi("functools.lru_cache", lambda I, st, a, k: iter([(st, a[0] if a else Opaque("lru_cache"))]))}
+                      "wraps": bi("functools.wraps", _functools_wraps)}
+    # functools.lru_cache / cache are NOT modelled: treating them as the identity would recompute (and re-run the side effects
+    # of) a function whose result CPython returns from the cache - the same object - on every later call
     def _op2(opname):
         # operator.mul / truediv / add / sub (a, b) = the binary operator on the same operands
         return lambda I, st, a, k: M.binop(I, st, opname, a[0], a[1])
